@@ -861,6 +861,34 @@ def child_keeps_only_own_layer(ctx, rep, R):
                     differs = pos if isinstance(e.ops[0], ast.NotEq) else not pos
                     eq = differs
         if eq is not True:
+            # the names to remove may have been collected first:
+            #   unwanted = [n for n in layers if n != resume_layer];  for n in unwanted: del layers[n]
+            loop_ = None
+            for f in ast.walk(fn):
+                if isinstance(f, ast.For) and any(x is node for b in f.body for x in ast.walk(b)):
+                    loop_ = f
+            comp = None
+            if loop_ is not None and isinstance(loop_.target, ast.Name) and norm(loop_.target) == norm(key):
+                src_ = loop_.iter
+                if isinstance(src_, ast.Name):
+                    vals = [v for v in single_assignments(fn).items() if v[0] == src_.id]
+                    src_ = vals[0][1] if vals else None
+                if isinstance(src_, (ast.ListComp, ast.GeneratorExp, ast.SetComp)) and \
+                        len(src_.generators) == 1:
+                    comp = src_
+            if comp is not None:
+                g0 = comp.generators[0]
+                it_src = iter_source(g0.iter)[0]
+                if isinstance(it_src, ast.Call) and isinstance(it_src.func, ast.Attribute) and \
+                        it_src.func.attr in ('keys', 'copy') and not it_src.args:
+                    it_src = it_src.func.value
+                cond_ok = len(g0.ifs) == 1 and isinstance(g0.ifs[0], ast.Compare) and \
+                    len(g0.ifs[0].ops) == 1 and isinstance(g0.ifs[0].ops[0], ast.NotEq) and \
+                    ((norm(g0.ifs[0].left) == norm(g0.target) and is_resume(g0.ifs[0].comparators[0])) or
+                     (norm(g0.ifs[0].comparators[0]) == norm(g0.target) and is_resume(g0.ifs[0].left)))
+                if is_registry(it_src) and norm(comp.elt) == norm(g0.target) and cond_ok and \
+                        not any(isinstance(x, (ast.If, ast.Break, ast.Continue)) for x in ast.walk(loop_)):
+                    continue
             ok = False
             why = '%s is not controlled by "%s != options.resume_layer" (guards: %s)' % (
                 norm(node), norm(key), [(norm(e), p) for e, p in lits])
